@@ -51,12 +51,13 @@ SP = {}
 SCHEMAS = {}
 
 
-def _reg3(name, tvar, trole, rvar, rrole, cvar, crole, quick, thorough, cfgs=CFG, weights=(1, 2), only=None, **flags):
+def _reg3(name, tvar, trole, rvar, rrole, cvar, crole, quick, thorough, cfgs=CFG, weights=(1, 2), only=None,
+          nums=(None,), **flags):
     sch3 = Schema(name, [tvar, rvar, cvar], [(trole, 0), (rrole, 1), (crole, 2)], weighted=len(weights) > 1, **flags)
     sch2 = Schema(name + "_2d", [tvar, rvar, cvar], [(rrole, 1), (crole, 2)], weighted=len(weights) > 1, **flags)
     SCHEMAS[name] = sch3
     SP[name] = dict(kind="3d", sch3=sch3, sch2=sch2, quick=quick, thorough=thorough, cfgs=cfgs,
-                    profiles=sch3.profiles(weights), only=only)
+                    profiles=sch3.profiles(weights, nums), only=only)
 
 
 for _p in ("first", "mid", "last"):
@@ -87,6 +88,17 @@ for _p in ("first", "mid"):
     _reg3("cat_%s_x_cat_x_cat_squared" % _p, S.cat("t", 2, _p), "cat", A2, "cat", B2, "cat", 2, 3, cfgs=[{}],
           only=SQ_ONLY, squared=True)
 _reg3("mr_x_cat_x_cat_squared", N2, "mr", A2, "cat", B2, "cat", 1, 2, cfgs=[{}], only=SQ_ONLY, squared=True)
+
+# numeric measures in 3-D cubes whose (table, rows) type pair differs from (rows, columns)
+NUM_ONLY = {"counts", "unweighted_counts", "means", "sums", "stddev", "column_share_sum", "row_share_sum",
+            "total_share_sum", "columns_base", "rows_base"}
+_NUM3 = {"measures": ["mean", "sum", "stddev"], "valid_counts": True}
+_reg3("cat_x_mr_x_cat_num", S.cat("t", 2, "first"), "cat", M2, "mr", A2, "cat", 1, 2, cfgs=[{}], weights=(1,),
+      only=NUM_ONLY, nums=(None, 1, 3), numeric=dict(_NUM3))
+_reg3("mr_x_cat_x_cat_num", N2, "mr", A2, "cat", B2, "cat", 1, 2, cfgs=[{}], weights=(1,),
+      only=NUM_ONLY, nums=(None, 1, 3), numeric=dict(_NUM3))
+_reg3("cat_x_cat_x_mr_num", S.cat("t", 2, "mid"), "cat", A2, "cat", M2, "mr", 1, 2, cfgs=[{}], weights=(1,),
+      only=NUM_ONLY, nums=(None, 1, 3), numeric=dict(_NUM3))
 
 CORE_ONLY = {"counts", "unweighted_counts", "column_index", "row_proportions", "column_proportions", "table_proportions",
              "zscores", "pvals", "rows_margin", "columns_margin", "table_base", "table_margin", "row_labels",
